@@ -7,6 +7,7 @@ import itertools as it
 import re
 from typing import Any, Final, Mapping, Optional
 
+from antlr4 import ParserRuleContext
 from antlr4.error.ErrorListener import ErrorListener
 from logrus import Logger
 from typist import assert_never
@@ -468,7 +469,7 @@ class ZorgFileCompiler(ZorgFileListener):
             )
             self.page.has_errors = True
         else:
-            body: Final = note_body.getText().strip()
+            body: Final = _get_source_text(note_body).strip()
             l1_bullet_prefix: Final = "  * "
             l2_bullet_prefix: Final = "    - "
             l3_bullet_prefix: Final = "      + "
@@ -540,6 +541,22 @@ class ZorgFileCompiler(ZorgFileListener):
             assert self._s.block is not None
             note = Note(body, file_path=self.page.path, **kwargs)
             self._s.block.notes.append(note)
+
+
+def _get_source_text(ctx: ParserRuleContext) -> str:
+    """Returns the text of {ctx} as written in the file.
+
+    Unlike ctx.getText(), this keeps the characters the lexer does not know
+    (and therefore drops), e.g. non-ASCII letters or tabs.
+    """
+    tokens = ctx.parser.getTokenStream()
+    first = ctx.start.start
+    if ctx.start.tokenIndex > 0:
+        first = tokens.get(ctx.start.tokenIndex - 1).stop + 1
+    last = ctx.stop.stop
+    if ctx.stop.tokenIndex + 1 < len(tokens.tokens):
+        last = tokens.get(ctx.stop.tokenIndex + 1).start - 1
+    return str(ctx.start.getInputStream().getText(first, last))
 
 
 def _get_default_tags_map() -> _TagDict:
